@@ -88,6 +88,7 @@ def execute(ctx):
     dev = devs['cf']
     # only packets the library retries may be lost
     w.lossy = lambda direction, header, data: retried(header, data)
+    w.dupable = retried          # pings and other traffic are not delayed: a FIFO link would otherwise saturate
     ctx.notes['nontrivial'] = plan['scenario'].startswith('directed')
     done = {}
 
